@@ -206,6 +206,246 @@ func readerShape(repo string) map[string]bool {
 	return facts
 }
 
+// ---- hand-overs made on behalf of a blocking construct that lives in another function -----------------------------
+
+type handoverRec struct{ file, fn, callee string }
+
+func optFuncDecl(f *ast.File, recv, name string) *ast.FuncDecl {
+	for _, d := range f.Decls {
+		fd, ok := d.(*ast.FuncDecl)
+		if !ok || fd.Name.Name != name || fd.Body == nil {
+			continue
+		}
+		if recv == "" && fd.Recv == nil {
+			return fd
+		}
+		if recv != "" && fd.Recv != nil && len(fd.Recv.List) == 1 && recvTypeName(fd.Recv.List[0].Type) == recv {
+			return fd
+		}
+	}
+	return nil
+}
+
+// isReplaceStmt: the statement `cc.receivedMessageReader.TryToReplaceLoop()`
+func isReplaceStmt(st ast.Stmt) bool {
+	es, ok := st.(*ast.ExprStmt)
+	if !ok {
+		return false
+	}
+	ce, ok := es.X.(*ast.CallExpr)
+	return ok && len(ce.Args) == 0 && exprStr(ce.Fun) == "cc.receivedMessageReader.TryToReplaceLoop"
+}
+
+func wsContainsCall(n ast.Node, fun string) bool {
+	found := false
+	ast.Inspect(n, func(x ast.Node) bool {
+		if ce, ok := x.(*ast.CallExpr); ok && exprStr(ce.Fun) == fun {
+			found = true
+		}
+		return !found
+	})
+	return found
+}
+
+// wrapperHandover: in the body of fd, as statements of the function body itself (unconditional, source order), the
+// hand-over statement stands before the statement that calls `callee`; fails if fd does not call callee at that level.
+func wrapperHandover(where string, fd *ast.FuncDecl, callee string) bool {
+	rep, call := -1, -1
+	for i, st := range fd.Body.List {
+		if rep < 0 && isReplaceStmt(st) {
+			rep = i
+		}
+		if call < 0 && wsContainsCall(st, callee) {
+			call = i
+		}
+	}
+	if call < 0 {
+		fail("%s: no call of %s in the function body", where, callee)
+	}
+	return rep >= 0 && rep < call
+}
+
+func countCallsNamed(n ast.Node, sel string) int {
+	k := 0
+	ast.Inspect(n, func(x ast.Node) bool {
+		if ce, ok := x.(*ast.CallExpr); ok {
+			if s, ok := ce.Fun.(*ast.SelectorExpr); ok && s.Sel.Name == sel {
+				k++
+			}
+		}
+		return true
+	})
+	return k
+}
+
+// limiterHook recognises, in limitParallelRequests.go: a field F of type func() of LimitParallelRequests; a setter method S
+// on LimitParallelRequests whose body is the single statement `c.F = <its parameter>` (the only assignment to F in the
+// file); New initialises F in its composite literal (so that F is never nil).  Returns F, S ("" if absent) and, per function
+// Do / DoObserve, whether `c.F()` is a statement of the body that stands before the first statement which calls
+// c.acquireEndpoint or c.limit.Acquire.
+func limiterHook(f *ast.File) (field, setter string, before map[string]bool) {
+	before = map[string]bool{}
+	for _, d := range f.Decls {
+		gd, ok := d.(*ast.GenDecl)
+		if !ok {
+			continue
+		}
+		for _, sp := range gd.Specs {
+			ts, ok := sp.(*ast.TypeSpec)
+			if !ok || ts.Name.Name != "LimitParallelRequests" {
+				continue
+			}
+			st, ok := ts.Type.(*ast.StructType)
+			if !ok {
+				continue
+			}
+			for _, fl := range st.Fields.List {
+				ft, ok := fl.Type.(*ast.FuncType)
+				if ok && (ft.Params == nil || len(ft.Params.List) == 0) && (ft.Results == nil || len(ft.Results.List) == 0) && len(fl.Names) == 1 {
+					if field != "" {
+						fail("limiter: two func() fields (%s, %s)", field, fl.Names[0].Name)
+					}
+					field = fl.Names[0].Name
+				}
+			}
+		}
+	}
+	if field == "" {
+		return "", "", before
+	}
+	assigns := 0
+	ast.Inspect(f, func(x ast.Node) bool {
+		if as, ok := x.(*ast.AssignStmt); ok {
+			for _, l := range as.Lhs {
+				if s, ok := l.(*ast.SelectorExpr); ok && s.Sel.Name == field {
+					assigns++
+				}
+			}
+		}
+		return true
+	})
+	for _, d := range f.Decls {
+		fd, ok := d.(*ast.FuncDecl)
+		if !ok || fd.Recv == nil || len(fd.Recv.List) != 1 || recvTypeName(fd.Recv.List[0].Type) != "LimitParallelRequests" || fd.Body == nil {
+			continue
+		}
+		if fd.Type.Params == nil || len(fd.Type.Params.List) != 1 || len(fd.Type.Params.List[0].Names) != 1 || len(fd.Body.List) != 1 {
+			continue
+		}
+		param := fd.Type.Params.List[0].Names[0].Name
+		if as, ok := fd.Body.List[0].(*ast.AssignStmt); ok && len(as.Lhs) == 1 && len(as.Rhs) == 1 {
+			if s, ok := as.Lhs[0].(*ast.SelectorExpr); ok && s.Sel.Name == field && identName(as.Rhs[0]) == param {
+				setter = fd.Name.Name
+			}
+		}
+	}
+	// New gives the field a value
+	initialised := false
+	if nw := optFuncDecl(f, "", "New"); nw != nil {
+		ast.Inspect(nw.Body, func(x ast.Node) bool {
+			if kv, ok := x.(*ast.KeyValueExpr); ok && identName(kv.Key) == field {
+				if _, isLit := kv.Value.(*ast.FuncLit); isLit {
+					initialised = true
+				}
+			}
+			return true
+		})
+	}
+	if setter == "" || assigns != 1 || !initialised {
+		return field, "", before
+	}
+	for _, fn := range []string{"Do", "DoObserve"} {
+		fd := funcDecl(f, "LimitParallelRequests", fn)
+		hook, wait := -1, -1
+		for i, st := range fd.Body.List {
+			if es, ok := st.(*ast.ExprStmt); ok && hook < 0 {
+				if ce, ok := es.X.(*ast.CallExpr); ok && len(ce.Args) == 0 && exprStr(ce.Fun) == "c."+field {
+					hook = i
+				}
+			}
+			if wait < 0 && (wsContainsCall(st, "c.acquireEndpoint") || wsContainsCall(st, "c.limit.Acquire")) {
+				wait = i
+			}
+		}
+		if wait < 0 {
+			fail("limiter: %s does not wait for a slot any more", fn)
+		}
+		before[fn] = hook >= 0 && hook < wait
+	}
+	return field, setter, before
+}
+
+// connInstallsLimiterHook: in the function that builds the limiter (`v := limitparallelrequests.New(…)`) the statement
+// `v.<setter>(func() { cc.receivedMessageReader.TryToReplaceLoop() })` is a statement of the same body
+func connInstallsLimiterHook(f *ast.File, setter string) bool {
+	ok := false
+	for _, d := range f.Decls {
+		fd, isFn := d.(*ast.FuncDecl)
+		if !isFn || fd.Body == nil {
+			continue
+		}
+		limiterVar := ""
+		for _, st := range fd.Body.List {
+			if as, isAs := st.(*ast.AssignStmt); isAs && len(as.Lhs) == 1 && len(as.Rhs) == 1 {
+				if ce, isCall := as.Rhs[0].(*ast.CallExpr); isCall && exprStr(ce.Fun) == "limitparallelrequests.New" {
+					limiterVar = identName(as.Lhs[0])
+				}
+			}
+			if limiterVar == "" {
+				continue
+			}
+			if es, isEs := st.(*ast.ExprStmt); isEs {
+				if ce, isCall := es.X.(*ast.CallExpr); isCall && exprStr(ce.Fun) == limiterVar+"."+setter && len(ce.Args) == 1 {
+					if lit, isLit := ce.Args[0].(*ast.FuncLit); isLit && len(lit.Body.List) == 1 && isReplaceStmt(lit.Body.List[0]) {
+						ok = true
+					}
+				}
+			}
+		}
+	}
+	return ok
+}
+
+func scanHandovers(repo string, files map[string]*ast.File) []handoverRec {
+	var out []handoverRec
+	get := func(rel string) *ast.File {
+		f := files[rel]
+		if f == nil {
+			_, f = parseFile(repo, rel)
+			files[rel] = f
+		}
+		return f
+	}
+	limFile := "net/client/limitParallelRequests/limitParallelRequests.go"
+	_, setter, before := limiterHook(get(limFile))
+	for _, cf := range []string{"udp/client/conn.go", "tcp/client/conn.go"} {
+		f := get(cf)
+		// Conn.Ping (optional: without it Client.Ping is promoted) → Client.Ping
+		if fd := optFuncDecl(f, "Conn", "Ping"); fd != nil {
+			if wrapperHandover(cf+": Conn.Ping", fd, "cc.Client.Ping") {
+				out = append(out, handoverRec{cf, "Conn.Ping", "Client.Ping"})
+			}
+		}
+		// Conn.doObserve → Handler.NewObservation (its only caller in the file)
+		fd := funcDecl(f, "Conn", "doObserve")
+		if countCallsNamed(f, "NewObservation") != countCallsNamed(fd, "NewObservation") {
+			fail("%s: NewObservation is called outside Conn.doObserve", cf)
+		}
+		if wrapperHandover(cf+": Conn.doObserve", fd, "cc.observationHandler.NewObservation") {
+			out = append(out, handoverRec{cf, "Conn.doObserve", "Handler.NewObservation"})
+		}
+		// limiter hook installed by this connection
+		if setter != "" && connInstallsLimiterHook(f, setter) {
+			for _, fn := range []string{"Do", "DoObserve"} {
+				if before[fn] {
+					out = append(out, handoverRec{cf, "LimitParallelRequests." + fn, "LimitParallelRequests.acquireEndpoint"})
+				}
+			}
+		}
+	}
+	return out
+}
+
 func genWaitShape(g *gen, repo string) {
 	var recs []waitRec
 	files := map[string]*ast.File{}
@@ -237,6 +477,18 @@ func genWaitShape(g *gen, repo string) {
 	for _, k := range []string{"loopExitsOnDone", "loopExitsOnConnDone", "loopClearsFlagProcessesSetsFlagUnderMutex", "tryReplaceChecksCurrentFlagThenClosesAndSpawns"} {
 		fmt.Fprintf(&b, "/-- net/client/receivedMessageReader.go (structure recognised in the AST) -/\ndef %s : Bool := %v\n", k, facts[k])
 	}
+	hos := scanHandovers(repo, files)
+	b.WriteString("\n/-- a hand-over of the reader loop made on behalf of a blocking construct that lives in another function: on connections\n    built in `file`, `func` calls `TryToReplaceLoop` (itself, or through the hook the connection installs in the limiter) before it\n    enters `callee`, as an unconditional statement of its body -/\n")
+	b.WriteString("structure Handover where\n  file : String\n  func : String\n  callee : String\n  deriving Repr, DecidableEq\n\n")
+	b.WriteString("def handovers : List Handover := [")
+	for i, h := range hos {
+		sep := ","
+		if i == len(hos)-1 {
+			sep = ""
+		}
+		fmt.Fprintf(&b, "\n  ⟨%s, %s, %s⟩%s", leanStr(h.file), leanStr(h.fn), leanStr(h.callee), sep)
+	}
+	b.WriteString("]\n")
 	b.WriteString("\nend CoapVerif.Generated.WaitShape\n")
 	g.write("WaitShape.lean", b.String())
 }
